@@ -62,6 +62,7 @@ var targets = []target{
 	{"device/main.go", "state", "getCompare", true, false},
 	{"drc/main.go", "", "Main", false, true},
 	{"doapprove/main.go", "", "Main", false, true},
+	{"program/config.go", "", "LoadConfig", true, true},
 	{"cisco/device.go", "State", "LoginEnable", true, false},
 	{"cisco/device.go", "State", "checkBanner", true, false},
 	{"cisco/device.go", "State", "GetErrUnmanaged", true, false},
@@ -140,8 +141,11 @@ var fullArgs = map[string]bool{
 // Assignments that are kept (text of the left-hand side).
 var watch = map[string]bool{
 	"bannerLines": true, "s.errUnmanaged": true, "devName": true, "isCompare": true, "action": true,
-	"logFile": true, "out": true, "lines": true, "stdPrompt": true, "passPrompt": true, "name": true, "err": false,
+	"logFile": true, "out": true, "lines": true, "stdPrompt": true, "passPrompt": true, "name": true, "c.CheckBanner": true, "err": false,
 }
+
+// additionally watched in the front ends and in LoadConfig
+var frontWatch = map[string]bool{"words": true, "key": true}
 
 var problems []string
 
@@ -373,7 +377,7 @@ func (x *ex) stmt(s ast.Stmt, d int) {
 		}
 		emitted := false
 		for _, l := range v.Lhs {
-			if watch[text(l)] {
+			if watch[text(l)] || (x.front && frontWatch[text(l)]) {
 				x.emit(d, "assign", assignText(v))
 				emitted = true
 				break
